@@ -256,6 +256,7 @@ type PopOpts struct {
 	NoTrailerPop bool
 	PresentPct   int // probability (percent) that a leaf is populated
 	MaxEntries   int
+	LooseEntries bool // entries need not populate their first field (blank entries possible); never for parsing checks
 }
 
 var DefaultPop = PopOpts{Decoys: true, PresentPct: 70, MaxEntries: 4}
@@ -303,7 +304,7 @@ func genPops(t *rapid.T, ns []*Node, po PopOpts, decoys []string, forceFirst boo
 				ne = rapid.IntRange(0, max).Draw(t, lbl+"Entries")
 			}
 			for e := 0; e < ne; e++ {
-				p.Entries = append(p.Entries, genPops(t, n.Items, po, decoys, true, depth+1, lbl+"e"))
+				p.Entries = append(p.Entries, genPops(t, n.Items, po, decoys, !po.LooseEntries, depth+1, lbl+"e"))
 			}
 		}
 		out[i] = p
